@@ -20,6 +20,7 @@
 
 import calendar
 import datetime
+import time
 from math import radians, cos, sin, asin, sqrt, acos, degrees
 
 from pymeeus.base import TOL, get_ordinal_suffix, iint
@@ -983,12 +984,13 @@ class Epoch(object):
         :rtype: float
         """
 
-        localhour = datetime.datetime.now().hour
-        utchour = datetime.datetime.utcnow().hour
-        localminute = datetime.datetime.now().minute
-        utcminute = datetime.datetime.utcnow().minute
-        return ((localhour - utchour) * 3600.0
-                + (localminute - utcminute) * 60.0)
+        # Read the clock only once, and compare the full local and UTC dates:
+        # subtracting hour and minute fields read at different instants is
+        # wrong across minute/hour boundaries and when the dates differ
+        now = time.time()
+        local = calendar.timegm(time.localtime(now))
+        utc = calendar.timegm(time.gmtime(now))
+        return float(local - utc)
 
     @staticmethod
     def easter(year):
